@@ -202,6 +202,12 @@ def check(ctx):
                                            "impl": a, "impl_text": unhx(a.split()[1]).decode("utf8", "replace") if a.startswith("ok ") else a,
                                            "model": b, "model_text": unhx(b.split()[1]).decode("utf8", "replace") if b.startswith("ok ") else b})
     cov["renderer_mismatches"] = mism
+    # (A') a rendering that panics prints nothing a shell could read back
+    for (k, c), a in zip(cases, impl):
+        if a == "panic" and len(ctx.violations) < 3:
+            words = c if k in ("sh", "shp") else c[1]
+            ctx.violation({"kind": k, "case": c, "what": "to_cmdline_lossy / Debug panicked while rendering this command: there is no "
+                           "printable command line at all", "words_text": repr(words)[:400]})
     # (B) direct oracle on the implementation's text + (C) spec validation, both through the real sh
     reqs, meta = [], []
     for ((k, c), a), alt in zip(zip(cases, impl), alts):
